@@ -95,10 +95,10 @@ impl CellText {
 
 impl Bounds for CellText {
     fn bounds(&self) -> (Point, Point) {
-        (
-            self.start.top_left_most(),
-            self.end_cell().bottom_right_most(),
-        )
+        // `end_cell` is one past the last cell the text occupies
+        let last =
+            Cell::new(self.start.x + (self.columns() - 1).max(0), self.start.y);
+        (self.start.top_left_most(), last.bottom_right_most())
     }
 }
 
